@@ -954,7 +954,15 @@ impl Parser {
         Some(match self.current_token().tag() {
             TokenTag::Minus => {
                 let next_tag = self.peek_token(1).tag();
-                if next_tag != TokenTag::IntLit && next_tag != TokenTag::FloatLit {
+                let literal_follows =
+                    next_tag == TokenTag::IntLit || next_tag == TokenTag::FloatLit;
+                // `-2` is a negative literal, except in front of an operator that binds tighter
+                // than unary minus: `-2 % 3` groups like `-x % 3`
+                let tighter_operator_follows = matches!(
+                    self.peek_token(2).tag(),
+                    TokenTag::Star | TokenTag::Slash | TokenTag::Mod | TokenTag::Caret
+                );
+                if !literal_follows || tighter_operator_follows {
                     PrefixOp::Minus
                 } else {
                     return None;
